@@ -57,9 +57,9 @@ def conn (id : Nat) (frames : List (List Byte)) (descs : List Desc) : Conn :=
   { id := id, rx := Rx.init C, net := net0, calls := descs, out := [], wfail := none, nwrites := 0,
     good := true, frames := frames, descs := descs, fut := enc frames, k := 0 }
 def c0 : Conn := conn 0 [[1, 2], [3]] [.echo 7 false, .echo 8 true]
-def c1 : Conn := conn 1 [[9]] [.sub 2]
+def c1 : Conn := conn 1 [[9]] [.sub 2 0]
 def evs : List Srv.Ev := [.connect c0, .connect c1, .arrive 0 [1, 2, 0, 3], .run 50, .arrive 1 [9, 0], .arrive 0 [0], .run 50]
 example : (runEvs C (fun _ => 100) evs Srv.init).all.map (fun c => (c.id, c.out)) =
-    [(0, [.R 7]), (1, [.I 0 true, .I 1 false])] := by decide
+    [(0, [.R 7]), (1, [.I 0 (some true), .I 1 (some false)])] := by decide
 end Example
 end C08
